@@ -18,6 +18,11 @@ def main():
     try:
         mod = importlib.import_module("harness.checks.%s" % a.pid.lower())
         ctx = core.Ctx(a.pid, a.tier, seed, mod.LEVEL)
+        from harness import jk, kernel
+        try:
+            ctx.notes["kernel"] = dict(jk.load())
+        except kernel.KernelError as ex:
+            raise core.MachineryError("kernel could not be resolved: %s" % ex)
         if a.replay:
             rc = mod.replay(ctx, a.replay)
         else:
